@@ -43,6 +43,11 @@ def prelude(res, ctx, need_race=False, lean=True):
             res.violation("fact extractor failed on /repo: " + out[-2000:], {"stage": "extract", "output": out[-4000:]},
                           no_input=True)
             return False
+    if os.path.isdir(os.path.join(core.HARNESS, "cmd", "trans")):
+        ok, out = core.run_trans()
+        if not ok:
+            # not fatal here: the stub it leaves makes the translated-function theorems fail to check below
+            res.notes.append("translator could not translate /repo's current source: " + out[-600:])
     pid = ctx.pid
     mod = "XixiKV.Properties." + pid
     thms = core.property_theorems(pid)
@@ -66,6 +71,9 @@ def prelude(res, ctx, need_race=False, lean=True):
         res.violation("Lean obligations of %s no longer check: %s" % (pid, " | ".join(errs)),
                       {"stage": "lake build", "module": mod, "errors": errs, "theorems": thms}, no_input=True)
         ctx.lean_broken = out
+        # the model driver does not depend on the property modules: keep the correspondence available for the search
+        ok2, _, _ = core.lake_build(["driver"])
+        ctx.model_ok = ok2 and os.path.exists(core.DRIVER)
         return True   # continue: the search for a concrete failing input still runs
     hits = core.lean_sources_clean()
     if hits:
